@@ -29,6 +29,7 @@ WHY = {
  'nested-context-cancelled': 'which context the ROLLBACK TO of a failed nested block runs under is a design decision: C18 wants the caller\'s, and with it cancelled database/sql refuses the statement; reporting the refused rollback would at least need the deferred function to return it',
  'hook-write-block-in-association-save': 'association saves run under Session{DisableNestedTransaction: true} and the hooks of the associated records inherit that session; restoring the caller\'s setting for hooks needs the original value carried along',
  'selfappend-byvalue-assignback': 'saveAssociation\'s assign-back copies the appended element (a copy of the owner taken before its relation field was set) over the argument, which is the owner itself; avoiding it needs an identity check in the assign-back loop of all relation kinds',
+ 'scope-returns-session-handle': 'tried: continuing Execute on an instance of the returned handle repairs the transaction bookkeeping, but callers that ignore Execute\'s return value (CreateInBatches reads subtx.Error) then lose errors - what a scope may return needs a decision first; reverted',
  'preparestmt-bounded-pool': 'documented trade-off in prepare() (it cannot hold the lock while waiting for a connection)',
 }
 
